@@ -3,7 +3,7 @@ import ast
 
 from ..model import AnalysisError, need, call_name, const_str, unparse
 from ..cfg import cfg_of, calls_at, reaching_defs
-from .common import (rules, deriv, attr_calls, cfg_node_of, is_selector_call, all_funcs_of, stmt_text, node_effects,
+from .common import (rules, deriv, calls_local_helper, attr_calls, cfg_node_of, is_selector_call, all_funcs_of, stmt_text, node_effects,
                      direct_status_calls, strip_sorters, body_always_calls)
 from .countflow import _quota_pred
 from .values import _forced_arithmetic
@@ -117,7 +117,7 @@ def r13_quota(ctx):
         for g in all_funcs_of(f):
             for s in g.own_nodes():
                 if isinstance(s, ast.Assign) and len(s.targets) == 1 and ctx.canon(s.targets[0], g) == 'E.quota':
-                    if isinstance(s.value, ast.Call) and isinstance(s.value.func, ast.Name) and s.value.func.id == 'calcQuota':
+                    if isinstance(s.value, ast.Call) and isinstance(s.value.func, ast.Name) and cq is not None and s.value.func.id == cq.name:
                         continue
                     sites.append((g, s.value, s))
         need(sites, '%s: no quota computation found' % ri.cls.qualname)
@@ -169,9 +169,16 @@ def r13_quota(ctx):
                 if isinstance(c, ast.Compare) and len(c.ops) == 1 and isinstance(c.ops[0], (ast.Gt, ast.GtE)) \
                         and ctx.canon(c.comparators[0], g) == 'E.quota' and isinstance(c.left, (ast.Attribute, ast.Name)):
                     l = c.left
-                    if (isinstance(l, ast.Attribute) and l.attr in ('vote', 'quotient')) or (isinstance(l, ast.Name) and l.id.startswith('high_')):
-                        if g.name == 'hasSurplus':
-                            continue
+                    st_ = ctx.repo.enclosing_stmt(c)
+                    if isinstance(st_, ast.Return) and g is not f:
+                        # a predicate helper that is not the election filter (cfer's hasSurplus feeds `pending=`): not an election test
+                        continue
+                    if isinstance(l, ast.Attribute) and l.attr in ('vote', 'quotient'):
+                        cmps.append((g, c, c))
+                    elif isinstance(l, ast.Name) and isinstance(st_, (ast.If, ast.While)) and any(x is c for x in ast.walk(st_.test)) \
+                            and any('elect' in node_effects(ctx, g, cfg_of(g).of_stmt[b_]) for b0 in st_.body for b_ in ast.walk(b0)
+                                    if isinstance(b_, ast.stmt) and b_ in cfg_of(g).of_stmt):
+                        # `if high_quotient > E.quota: ... elect` (qpq): a test on a local that gates an election
                         cmps.append((g, c, c))
         need(cmps, '%s: no quota comparison found' % ri.cls.qualname)
         for g, c, anchor in cmps:
@@ -211,8 +218,12 @@ def r13_quota(ctx):
                 continue
             for c in calls_at(x):
                 p_ = ctx.canon(c.func, f)
-                if p_ in ('E.logAction', 'E.newRound') or (isinstance(c.func, ast.Name) and c.func.id in ('hasQuota', 'iterate', 'iterateStep', 'batchDefeat')):
+                if p_ in ('E.logAction', 'E.newRound'):
                     users.add(x)
+            # a rule-local helper that reads the quota or records an action (hasQuota, iterate, batchDefeat, ...)
+            if calls_local_helper(ctx, f, x, lambda n_, g_: (isinstance(n_, ast.Attribute) and isinstance(n_.ctx, ast.Load) and ctx.canon(n_, g_) == 'E.quota')
+                                  or (isinstance(n_, ast.Call) and ctx.canon(n_.func, g_) in ('E.logAction', 'E.newRound'))):
+                users.add(x)
             heads = [x.ast.test] if x.kind == 'test' else ([x.ast.iter] if x.kind == 'iter' else ([x.ast] if x.kind == 'stmt' else []))
             heads = [h for h in heads if not isinstance(h, (ast.FunctionDef, ast.ClassDef))]
             for h in heads:
